@@ -370,7 +370,8 @@ class OscMessageDispatcher(AbstractWrappingDispatcher):
 
     def __call__(self, msg, time, addr, recv_port):
         if msg[0] in self.active:
-            for func in self.active[msg[0]]:
+            # Responders may remove themselves when called (one_shot).
+            for func in self.active[msg[0]][:]:
                 fn.value(func, msg, time, addr, recv_port)
 
     def register(self):
